@@ -64,7 +64,7 @@ pub fn gen_case(seed: u64, hist: u64, p: &GenParams, plan: &str) -> HistCase {
         let n = g.r.range(6, 16) as usize;
         g.adversarial_burst(n, &mut steps);
     }
-    HistCase { seed, hist, cfg, steps, tags: g.tags.iter().map(|s| s.to_string()).collect(), plan: plan.to_string(), create_fault: if plan == "C02" && r.chance(1, 3) { Some(r.range(1, 6) as u32) } else { None } }
+    HistCase { seed, hist, cfg, steps, tags: g.tags.iter().map(|s| s.to_string()).collect(), plan: plan.to_string(), create_fault: if (plan == "C02" && r.chance(1, 3)) || (plan == "C11" && r.chance(1, 4)) { Some(r.range(1, 6) as u32) } else { None } }
 }
 
 #[derive(Default, Debug)]
@@ -345,15 +345,26 @@ impl<'a> Runner<'a> {
                             // the entry that hit the error. Follow what the store reports and keep going: what
                             // matters (C02) is that a later flush + restart shows this same state.
                             self.faults_seen = crate::trace::fired_faults();
-                            self.faulted = true;
                             self.stats.io_faults_hit += 1;
                             let last_now = self.st.state().last;
                             let mut applied = recs.len();
                             if let Op::Append(es) = op {
                                 applied = es.iter().position(|(id, _)| Some(*id) == last_now).map(|p| p + 1).unwrap_or(0);
                             }
+                            // the reference journal follows: the applied records are journalled, the rotation that the
+                            // last of them should have triggered did not happen
+                            let mut rotated_last = false;
                             for r in recs.iter().take(applied) {
                                 self.m.apply(r);
+                                let (_, _, rot) = self.j.append(r, &self.m.st);
+                                rotated_last = rot;
+                                self.stats.records += 1;
+                            }
+                            if rotated_last {
+                                self.j.undo_last_rotation();
+                            } else {
+                                // the failure was not at the rotation this model predicts: stop predicting bytes
+                                self.faulted = true;
                             }
                         } else {
                             return Err(self.v("C01", "accepted_write_refused", format!("specification accepts, store returned Err({})", e)));
@@ -376,6 +387,30 @@ impl<'a> Runner<'a> {
                 let (recs, res) = Gen::apply_to_model(&mut m2, op);
                 if res.is_ok() {
                     return Err(self.v("HARNESS", "generator_expect", "generator marked as rejected a call the model accepts".into()));
+                }
+                if crate::trace::fired_faults() > self.faults_seen {
+                    // an injected chunk-creation failure ended this batch before the refused entry was reached:
+                    // follow what the store reports; the rejection oracle does not apply to this call
+                    self.faults_seen = crate::trace::fired_faults();
+                    self.stats.io_faults_hit += 1;
+                    let last_now = self.st.state().last;
+                    let mut applied = 0;
+                    if let Op::Append(es) = op {
+                        applied = es.iter().position(|(id, _)| Some(*id) == last_now).map(|p| p + 1).unwrap_or(0).min(recs.len());
+                    }
+                    let mut rotated_last = false;
+                    for r in recs.iter().take(applied) {
+                        self.m.apply(r);
+                        let (_, _, rot) = self.j.append(r, &self.m.st);
+                        rotated_last = rot;
+                        self.stats.records += 1;
+                    }
+                    if rotated_last {
+                        self.j.undo_last_rotation();
+                    } else if applied > 0 {
+                        self.faulted = true;
+                    }
+                    return Ok(());
                 }
                 for r in &recs {
                     self.m.apply(r);
